@@ -6,9 +6,14 @@
   * math/big is `Nat`; `secp256k1.BaseMultiply / BaseMultiplyAdd / ParsePubkey` are the reference curve
     of Base/Secp.lean (textbook affine arithmetic) — gocoin's limb code is the subject of C08.
   * A Go panic is `.error .panic`. `.error .outside` marks inputs on which the Go code produces
-    *junk without failing* (the point at infinity is serialised from stale coordinates; keys of the
-    wrong length): the model does not mirror the junk VALUE; the harness still runs the real code there
-    and judges it by the reference predicate wherever BIP32 defines a result.
+    *junk without failing* (a private extended key ≡ 0 mod n: `PublicFromPrivate` returns nil and
+    `Child` / `Pub` / `PubAddr` go on with the nil key; keys of the wrong length): the model does not mirror
+    the junk VALUE; the harness still runs the real code there and judges it by the reference predicate
+    wherever BIP32 defines a result.
+  * The point at infinity is NOT serialised any more (`fix:` commit for C08's api-*-identity findings:
+    `BaseMultiply` / `BaseMultiplyAdd` return false there): `NewPrivateAddr` panics on a key ≡ 0 mod n, the public
+    branch of `Child` panics when I_L·G + P = ∞ (BIP32: "invalid, proceed with the next i"), `DeriveNextPublic`
+    returns the zero-filled buffer — all three mirrored exactly.
   * A public key that does not parse (first byte not 02/03, x ≥ p, x³+7 no square) is NOT outside:
     since the `fix:` commits for finding `xpub-noncanonical-x` `ByteCheck` refuses it (it used to ignore
     `ParsePubkey`'s verdict and asked `IsValid()` of the point built from x mod p) and the public branch of
@@ -50,7 +55,9 @@ def serPoint (compressed : Bool) : Secp.Point → Option Bytes
   | some P => some (if compressed then Secp.ser33 (some P) else Secp.ser65 (some P))
 
 /-- `btc.PublicFromPrivate(priv, compressed)` for a 32-byte `priv`: k·G with k the big-endian value
-    (not reduced: `ECmultGen` walks the 256 bits). `none` = point at infinity (Go writes junk). -/
+    (not reduced: `ECmultGen` walks the 256 bits). `none` = point at infinity: `BaseMultiply` reports false
+    there (since the `fix:` commit for C08's api-*-identity findings; it used to write stale coordinates and
+    report true) and `PublicFromPrivate` returns nil. -/
 def publicFromPrivate (priv : Bytes) (compressed : Bool) : Option Bytes :=
   serPoint compressed (Secp.mul (beVal priv) Secp.G)
 
@@ -59,15 +66,16 @@ def deriveNextPrivate (p s : Bytes) : Bytes :=
   beBytes 32 ((beVal p + beVal s) % Secp.n)
 
 /-- `secp256k1.BaseMultiplyAdd(public, secret, out)` for a 33-byte `public`: `.ok none` = it returns false
-    (`ParsePubkey` refuses: first byte not 02/03, x ≥ p, or x³+7 without a square root) and leaves `out`
-    untouched; `.ok (some b)` = true with `out` = secret·G + P compressed. -/
+    (`ParsePubkey` refuses: first byte not 02/03, x ≥ p, or x³+7 without a square root; or secret·G + P is the
+    point at infinity — false since the `fix:` commit for C08's api-basemultiplyadd-identity, stale coordinates
+    and true before) and leaves `out` untouched; `.ok (some b)` = true with `out` = secret·G + P compressed. -/
 def baseMultiplyAdd (pub secret : Bytes) : Except Fail (Option Bytes) :=
   if pub.length ≠ 33 then .error .outside
   else match Secp.parsePubkey pub with
     | none => .ok none
     | some P =>
       match serPoint true (Secp.add (Secp.mul (beVal secret) Secp.G) (some P)) with
-      | none => .error .outside                     -- infinity: Go serialises stale coordinates
+      | none => .ok none                            -- infinity: BaseMultiplyAdd returns false
       | some b => .ok (some b)
 
 /-- `btc.DeriveNextPublic(public, secret)` for a 33-byte `public`: secret·G + P, compressed. It ignores
@@ -182,11 +190,11 @@ structure PrivAddr where
   h160 : Bytes
   deriving Repr, DecidableEq
 
-/-- `NewPrivateAddr(key, ver, compr)`; `.panic` when PublicFromPrivate returns nil (never, in Go);
-    `.outside` for the point at infinity -/
+/-- `NewPrivateAddr(key, ver, compr)`; `.panic` when PublicFromPrivate returns nil, i.e. when key·G is the
+    point at infinity (key ≡ 0 mod n): panic("PublicFromPrivate error") -/
 def newPrivateAddr (C : WalletCrypto) (key : Bytes) (ver : UInt8) (compr : Bool) : Except Fail PrivAddr :=
   match publicFromPrivate key compr with
-  | none => .error .outside
+  | none => .error .panic
   | some pb => .ok { key := key, version := ver, addrVersion := ver - 0x80, pubkey := pb, h160 := C.hash160 pb }
 
 /-- `(*PrivateAddr).String()` -/
